@@ -19,7 +19,7 @@ elif [ "$cmd" = run ]; then
   git -C /repo apply $patch || exit 2
   cd /verif
   for id in "$@"; do
-    out=$(VERIF_SEED=${VERIF_SEED:-0} ./check $id ${TIER:-quick} 2>&1); rc=$?
+    out=$(VERIF_EVIDENCE_DIR=/tmp/seed_evidence VERIF_SEED=${VERIF_SEED:-0} ./check $id ${TIER:-quick} 2>&1); rc=$?
     echo "$id rc=$rc $(echo "$out" | grep -E '^(OK|VIOLATION)' | head -2 | cut -c1-220)"
     echo "$out" | grep -A1 '^VIOLATION' | grep -v '^VIOLATION\|^--' | head -1 | cut -c1-300
   done
